@@ -2,7 +2,7 @@ SPECIFICATION BSpec
 CONSTANTS
   System <- SysC206Q
   Alphabet <- AlphaC206Q
-  MaxLen = 9
+  MaxLen = 8
   Lint = TRUE
   SortVariant = "code"
   StaleOK = TRUE
